@@ -9,11 +9,13 @@ C10.b decisions: Delete only for marked packs without used blobs after the keep-
 C10.c without instant-delete, packs that are repacked / marked / kept-marked are never removed in that run but listed
   as to-delete - with time = now when newly marked, with their original time when they stay marked (= executor table).
 C10.d PrunePlan::new drops from the marked list every pack that is also listed unmarked.
+C10.f deletion marks are persisted: Indexer::save writes the file unless both pack lists are empty.
 C10.e new index before old index removal; index removal before pack removal (R-ORDER 13/14).
 """
 import re
 from rules.common import *
 import runner
+from rules.C18 import cd_conditions
 
 LEVEL = "other"
 EXPLANATION = (
@@ -71,3 +73,28 @@ def run(ctx, rep):
         if reads_mark and contains:
             ok = True
     rep.check("C10.d", "marked-duplicates-dropped", ok, where=NW.loc(), what="PrunePlan::new retains a marked entry only if the same pack is not also listed unmarked (a pack re-added by a concurrent backup is not deleted)")
+    marks_persisted_rule(ctx, rep, "C10.f")
+
+
+def marks_persisted_rule(ctx, rep, R):
+    """C10.f: deletion marks survive: Indexer::save skips writing the index file only if BOTH lists (packs and
+    packs_to_delete) are empty - an index that holds only marked packs must still be written, because prune removes the
+    old index files afterwards (otherwise marks and the blob information of marked packs vanish while a concurrent
+    backup may still reference those blobs)."""
+    prog = ctx.prog
+    rep.rule(R, "an index file holding only packs marked for deletion is still written")
+    SV = prog.find1(r"^rustic_core::index::indexer::Indexer::<BE>::save$")
+    saves = [(bb, t) for bb, t in SV.calls() if "callee" in t and re.search(r"save_file$", callee(t) + " " + callee_decl(t))]
+    rep.require(R, "save/site", len(saves) == 1, where=SV.loc(), what="Indexer::save writes the index file at one site")
+    if len(saves) != 1:
+        return
+    bb = saves[0][0]
+    conds = cd_conditions(SV, bb)
+    fields = set()
+    for ex, v, sw in conds:
+        f, _ = flow.expr_mentions(ex)
+        fields |= f
+    ok = (not conds) or {"packs", "packs_to_delete"} <= fields
+    rep.check(R, "save/skipped-only-if-both-lists-empty", ok, where=where(SV, bb),
+              what="the index file is written unless both `packs` and `packs_to_delete` are empty" if ok else
+                   f"the condition that skips writing the index file looks only at {sorted(fields & {'packs', 'packs_to_delete'})}: an index holding only marked packs is dropped although the old index files are removed")
